@@ -92,6 +92,10 @@ QUERY_EXTRA = ["%62=1&a=2", "b=1&%61=2", "utm%5Fsource=x&a=1", "utm_source=x&a=1
 REDIRECTS = ["http://a.com/#x&url=http%3A%2F%2Fb.com%2F%3Fa%3D1%26b%3D2", "http://a.com/p?url=http%3A%2F%2Fb.com%2F%3Fa%3D1%26b%3D2#x&u=http%3A%2F%2Fc.com",
              "http://a.com/?next=%2Fp%3Fa%3D1%26b%3D2", "http://a.com/r?u=https%3A%2F%2FB.com%2F%2541%3Fq%3D%2526", "a.com/#!/x?url=http%3A%2F%2Fb.com",
              "https://www.google.com/url?q=https%3A%2F%2Ffr.b.co.uk%2Fa%23f&sa=D", "http://a.com/?url=http%3A%2F%2Fb.com%2F%23frag%26x%3D1"]
+REDIRECTS += ["http://a.com/?%75rl=http://b.com", "http://a.com/p?x=1&ne%78t=%2Fq", "youtube.com/%2e%2e?ref=x", "fr.facebook.com/a/%2E%2E/b", "a.com:8080/p?u=/x", "a.com/p?next=/x%3Fa%3D1", "//a.com/p?u=/x", "a.com/p?u=//b.com/y"]
+# pairs that are easy to confuse: when they have the same canonical / normalized form they must agree on the next scheme too
+PAIRS = [("http://a.com/x?Q=http://b.com", "http://b.com"), ("http://a.com/x?q=http://b.com", "http://a.com/x?Q=http://b.com"), ("a.com?ref=%46b", "a.com?ref=Fb"),
+         ("a.com/p?u=HTTP://B.COM/x", "b.com/x"), ("a.com/Index.html", "a.com/"), ("a.com/INDEX.php/default.aspx", "a.com/INDEX.php"), ("https://a.com/", "a.com:443"), ("http://a.com:0/", "http://a.com/")]
 WRAPS = [("\x08 ", ""), (" \x00", " "), ("\x1b\t", "\x7f "), ("", " \x01"), ("\x00 \x00 ", "")]
 HOSTS_EXTRA = ["fr.a.com", "fr-FR.a.com", "www.fr.a.com", "m.a.com", "amp.a.com", "amp-x.a.com", "a.co.uk", "A.COM:8080", "youtube.com", "www.facebook.com", "fr.facebook.com"]
 
@@ -143,6 +147,10 @@ def main():
             urls.append("http://" + h + tail)
             urls.append(h + tail)
     urls.extend(REDIRECTS)
+    # explicit default ports under every scheme spelling (canonicalize_url assumes https for a scheme-less url, normalize_url http)
+    for sch in ("", "//", "http://", "https://", "HTTPS://"):
+        for port in (":80", ":443", ":0", ":8080"):
+            urls.append(sch + "a.com" + port + "/x?b=1&a=2")
     for pre, post in WRAPS:
         for u in ("http://www.A.com/a/b/?utm_source=x&b=1", "a.com/x", "HTTPS://fr.a.com:443/p/index.html#f") + tuple(REDIRECTS[:3]):
             urls.append(pre + u + post)
@@ -153,6 +161,12 @@ def main():
     jobs = [(a.tier, a.seed, urls[i:i + size]) for i in range(0, len(urls), size)]
     for part in run_sharded(shard, jobs, a.jobs):
         col.merge(part)
+    for ua, ub in PAIRS:
+        for o in OPTSETS:
+            classes = {}
+            check_url(col, ua, o, classes)
+            check_url(col, ub, o, classes)
+            check_classes(col, classes)
     col.sample({"url": "http://a.com/?%62=1&a=2", "options": OPTSETS[0]})
     col.sample({"collision_class_by": "canonicalize_url", "members": ["http://a.com/p?%61=1", "http://a.com/p?a=1"]})
     col.exhaustive = True
